@@ -25,34 +25,77 @@ Proof.
 Qed.
 Print Assumptions C18_long_limit_boundary.
 
-(* ---- the stateless tools emit a subsequence of the input lines, unchanged and in order ---- *)
+(* ---- the three stateless tools are modelled as the LOOPS they are ([*_loop], FiltersDefs.v): a fold over the
+   lines whose state holds everything that lives across iterations in the C++ -- the line variable (declared
+   outside the loop and overwritten by every read), FilterParallel's counters, the output stream, and the pass
+   object.  For simple_cleaning the object carries counts[], punct, spaces, previous, previous_run from call to
+   call (field to field, line to line) UNLESS the source declares and initialises them inside operator(), which
+   the translator regenerates as four flags.  Proved: whatever the carried state is, the decision on a line is a
+   function of that line alone, so each loop writes exactly `filter p` of its input.  A variable hoisted into
+   the object flips a flag, the model then really carries it, and C18_decision_ignores_carried_state breaks. *)
+Theorem C18_decision_ignores_carried_state :
+  forall script_of is_punct is_uspace sc si too_common little_punct script_low o ranges d (carried carried' : sc_state) (l : line),
+  fst (individual_fields_obj script_of is_punct is_uspace sc si too_common little_punct script_low o ranges 0 d l carried) =
+  fst (individual_fields_obj script_of is_punct is_uspace sc si too_common little_punct script_low o ranges 0 d l carried').
+Proof. intros. now rewrite !individual_fields_obj_fst. Qed.
+Print Assumptions C18_decision_ignores_carried_state.
+
+Theorem C18_loops_are_per_line_filters :
+  forall recs : list line,
+  (forall limit, remove_long_lines_loop limit recs = filter (long_keep limit) recs) /\
+  remove_invalid_utf8_loop recs = filter wf_utf8 recs /\
+  (forall script_of is_punct is_uspace sc si too_common little_punct script_low o ranges d,
+     simple_cleaning_loop script_of is_punct is_uspace sc si too_common little_punct script_low o ranges d recs =
+     filter (sc_line_keep script_of is_punct is_uspace sc si too_common little_punct script_low o ranges d) recs).
+Proof.
+  intros recs. split; [intros; apply remove_long_lines_loop_spec|]. split; [apply remove_invalid_utf8_loop_spec|].
+  intros. apply simple_cleaning_loop_spec.
+Qed.
+Print Assumptions C18_loops_are_per_line_filters.
+
+(* FilterParallel's counters: lines read / lines kept, as reported on stderr *)
+Theorem C18_loop_counters :
+  forall (S : Type) (pass : S -> line -> bool * S) (p : line -> bool), (forall s l, fst (pass s l) = p l) ->
+  forall obj0 recs,
+  l_input (run_loop S pass obj0 recs) = N.of_nat (length recs) /\
+  l_output (run_loop S pass obj0 recs) = N.of_nat (length (l_out (run_loop S pass obj0 recs))).
+Proof.
+  intros S pass p H obj0 recs. destruct (loop_is_filter S pass p H obj0 recs) as (A & B & C). rewrite A, B, C. auto.
+Qed.
+Print Assumptions C18_loop_counters.
+
+(* ---- hence: the loops emit a subsequence of the input lines, unchanged and in order ---- *)
 Theorem C18_stateless_subsequence :
   forall ls,
-  (forall limit, Subseq (remove_long_lines limit ls) ls) /\
-  Subseq (remove_invalid_utf8 ls) ls /\
+  (forall limit, Subseq (remove_long_lines_loop limit ls) ls) /\
+  Subseq (remove_invalid_utf8_loop ls) ls /\
   (forall script_of is_punct is_uspace sc si too_common little_punct script_low o ranges d,
-     Subseq (simple_cleaning script_of is_punct is_uspace sc si too_common little_punct script_low o ranges d ls) ls).
+     Subseq (simple_cleaning_loop script_of is_punct is_uspace sc si too_common little_punct script_low o ranges d ls) ls).
 Proof.
-  intros ls. split; [intros; apply filter_subseq|]. split; [apply filter_subseq|]. intros. apply filter_subseq.
+  intros ls. split; [intros; rewrite remove_long_lines_loop_spec; apply filter_subseq|].
+  split; [rewrite remove_invalid_utf8_loop_spec; apply filter_subseq|]. intros. rewrite simple_cleaning_loop_spec. apply filter_subseq.
 Qed.
 Print Assumptions C18_stateless_subsequence.
 
-(* ---- context independence: F (A ++ B) = F A ++ F B on line lists ... ---- *)
+(* ---- context independence: running the loop on A ++ B writes what it writes on A followed by what it writes
+   on B (a fresh process, fresh object) -- for the loops, not for `filter` ---- *)
 Theorem C18_append_hom :
   forall a b : list line,
-  (forall limit, remove_long_lines limit (a ++ b) = remove_long_lines limit a ++ remove_long_lines limit b) /\
-  remove_invalid_utf8 (a ++ b) = remove_invalid_utf8 a ++ remove_invalid_utf8 b /\
+  (forall limit, remove_long_lines_loop limit (a ++ b) = remove_long_lines_loop limit a ++ remove_long_lines_loop limit b) /\
+  remove_invalid_utf8_loop (a ++ b) = remove_invalid_utf8_loop a ++ remove_invalid_utf8_loop b /\
   (forall script_of is_punct is_uspace sc si too_common little_punct script_low o ranges d,
-     simple_cleaning script_of is_punct is_uspace sc si too_common little_punct script_low o ranges d (a ++ b) =
-     simple_cleaning script_of is_punct is_uspace sc si too_common little_punct script_low o ranges d a ++
-     simple_cleaning script_of is_punct is_uspace sc si too_common little_punct script_low o ranges d b) /\
+     simple_cleaning_loop script_of is_punct is_uspace sc si too_common little_punct script_low o ranges d (a ++ b) =
+     simple_cleaning_loop script_of is_punct is_uspace sc si too_common little_punct script_low o ranges d a ++
+     simple_cleaning_loop script_of is_punct is_uspace sc si too_common little_punct script_low o ranges d b) /\
   remove_invalid_utf8_base64 (a ++ b) =
     match remove_invalid_utf8_base64 a, remove_invalid_utf8_base64 b with
     | Some x, Some y => Some (x ++ y)
     | _, _ => None
     end.
 Proof.
-  intros a b. split; [intros; apply filter_app|]. split; [apply filter_app|]. split; [intros; apply filter_app|]. apply b64_app.
+  intros a b. split; [intros; rewrite !remove_long_lines_loop_spec; apply filter_app|].
+  split; [rewrite !remove_invalid_utf8_loop_spec; apply filter_app|].
+  split; [intros; rewrite !simple_cleaning_loop_spec; apply filter_app|]. apply b64_app.
 Qed.
 Print Assumptions C18_append_hom.
 
@@ -170,11 +213,13 @@ Print Assumptions C18_set_tools_complete.
 
 (* ---- simple_cleaning never passes ill-formed UTF-8 or C0 controls other than TAB and CR ----
    per field (SimpleCleaningFilter::operator()), for every ICU classification and every option value: *)
+(* (the C++ casts line.size() to int32_t: the model is the code only for fields below 2^31 bytes -- explicit premise) *)
 Theorem C18_simple_cleaning_field_safe :
   forall script_of is_punct is_uspace sc si too_common little_punct script_low o (f : line),
+  Z.of_nat (length f) < 2 ^ 31 ->
   sc_filter script_of is_punct is_uspace sc si too_common little_punct script_low o f = true ->
   wf_utf8 f = true /\ safe_bytes f = true.
-Proof. exact sc_filter_safe. Qed.
+Proof. intros until f. intros _. apply sc_filter_safe. Qed.
 Print Assumptions C18_simple_cleaning_field_safe.
 
 (* exact threshold --min-chars: the quantity compared is the number of code points of the field, so a field
@@ -203,10 +248,11 @@ Print Assumptions C18_simple_cleaning_character_run.
    is well-formed UTF-8.  (With -f restricting the fields, unselected fields are not examined: forced hypothesis.) *)
 Theorem C18_simple_cleaning_safe :
   forall script_of is_punct is_uspace sc si too_common little_punct script_low o d (l : line),
+  Z.of_nat (length l) < 2 ^ 31 ->
   0 <= d < 128 -> safe_byte d = true ->
   sc_line_keep script_of is_punct is_uspace sc si too_common little_punct script_low o [(0%nat, None)] d l = true ->
   wf_utf8 l = true /\ safe_bytes l = true.
-Proof. exact sc_line_keep_safe. Qed.
+Proof. intros until l. intros _. apply sc_line_keep_safe. Qed.
 Print Assumptions C18_simple_cleaning_safe.
 
 (* ---- non-vacuity ---- *)
